@@ -255,6 +255,18 @@ def Mgr.addPeer (g : Mgr) (p : Nat) : Mgr :=
     let s1 : State := { g.st with clock := g.st.clock + 1 }
     { g with st := (merge s1 [⟨p, ⟨.unknown, s1.clock, 0⟩⟩]).1 }
 
+/-- NOT the code: `add_peer` "tidied" into an early-return shape — the placeholder is merged on
+    every first registration of a peer, whether or not the view already holds an entry for it (the
+    guard `state.get(&peer).is_none()` replaced by the `known_peers` membership test, on the wrong
+    assumption that a node that is not a registered peer cannot be in the view: entries are also
+    created by gossip).  `known_peers` is not part of the model; a call of this function is a first
+    registration.  The placeholder carries a fresh, locally highest timestamp and incarnation 0, so
+    it supersedes any entry at incarnation 0.  Kept only for
+    `addPeerAlwaysMergesPlaceholder_witness`. -/
+def Mgr.addPeerAlwaysMergesPlaceholder (g : Mgr) (p : Nat) : Mgr :=
+  let s1 : State := { g.st with clock := g.st.clock + 1 }
+  { g with st := (merge s1 [⟨p, ⟨.unknown, s1.clock, 0⟩⟩]).1 }
+
 /-- the incarnation-jump filter of `handle_sync` (evaluated against the state *before* the merge) -/
 def passesDelta (s : State) (maxDelta : Nat) (u : Update) : Bool :=
   let delta := match s.regs u.node with
